@@ -289,6 +289,13 @@ class CancelScope(AbstractCancelScope):
                     if isinstance(exc, asyncio.CancelledError)
                 )
 
+            # Take back the cancellation requests which never came back to this scope as an exception
+            # (e.g. the body was shielded and ended normally), so task.cancelling() is left as it was on entry.
+            while self.__host_task_cancel_calls:
+                self.__host_task_cancel_calls -= 1
+                if host_task.cancelling() > self.__host_task_cancelling:
+                    host_task.uncancel()
+
             delayed_task_cancel: _DelayedCancel | None = self.__delayed_task_cancel_dict.get(host_task, None)
             if delayed_task_cancel is not None and delayed_task_cancel.message == self.__cancellation_id():
                 del self.__delayed_task_cancel_dict[host_task]
